@@ -167,6 +167,12 @@ def _init_rows_raise(S, a):
                 start < 0, start > end, S.Not(_init_data_ok(S, a, a.data)))
 
 
+def _dtype_axiom(S, a):
+    return [("library axiom: remove_titles_from_dtype(np.dtype(x)) = remove_titles_from_dtype(x) "
+             "(the function itself starts with np.dtype(x))",
+             S.eq(S.call(RTFD, S.call("np.dtype", a.dtype)), S.call(RTFD, a.dtype)))]
+
+
 _INIT_PARAMS = dict(self=ObjT("Chunk", model=INIT_MODEL), data_type="V", data_kind="V", dtype="V", run_id="V",
                     start="V", end="V", subruns="V", superrun="V", target_size_mb="V")
 
@@ -187,7 +193,7 @@ chunk_init_none = REG.add(Contract(
         S.Not(S.And(S.is_instance(a.start, INT_KEY), S.is_instance(a.end, INT_KEY))),
         S.to_int(a.start) < 0, S.to_int(a.start) > S.to_int(a.end)),
         "ValueError:runs": lambda S, a: S.true},
-    calls=_INIT_CALLS, constructor=True,
+    calls=_INIT_CALLS, constructor=True, lemma_facts=_dtype_axiom,
 ))
 
 chunk_init_other = REG.add(Contract(
@@ -291,6 +297,8 @@ def _csplit_ensures(S, a, r):
     return [
         ("two adjacent chunks covering the original range",
          S.And(c1.start == o.start, c1.end == c2.start, c2.end == o.end, o.start <= t2, t2 <= o.end)),
+        ("hint: the requested time clamped into the chunk", S.And(o.start <= that, that <= o.end)),
+        ("hint: the time the rows were split at lies inside the chunk", S.And(a.local.t >= o.start, t2 == a.local.t)),
         ("rows concatenate to the original", S.And(0 <= k, k <= d.n, c2.data.n == d.n - k,
                                                    S.forall(0, k, lambda j: S.And(
                                                        c1.data.f("time", j) == d.f("time", j),
@@ -321,4 +329,122 @@ chunk_split = REG.add(Contract(
         "ValueError:runs": lambda S, a: S.true},
     calls={"_split_runs_in_chunk": split_runs_abstract},
     notes="ValueError from the sub/superrun bookkeeping of the two constructor calls is not analysed here (C14)",
+))
+
+
+# --------------------------------------------------------------------------------------
+# continuity_check (generator over an input iterator)
+# --------------------------------------------------------------------------------------
+from pyvc.generators import IterT  # noqa: E402
+import z3 as _z3  # noqa: E402
+from pyvc.engine import V as _V  # noqa: E402
+
+
+def _attr(S, name, v):
+    """attribute ``name`` of an opaque chunk value (the same symbol the engine uses)."""
+    if S.symbolic:
+        return _z3.Function("attr_" + name, _V, _V)(v)
+    return getattr(v, name)
+
+
+def _getitem(S, v, key):
+    if S.symbolic:
+        from pyvc.engine import strv
+        return _z3.Function("getitem", _V, _V, _V)(v, strv(key))
+    return v[key] if v is not None else None
+
+
+def _expected_start(S, prev, cur):
+    """(defined, value): where chunk ``cur`` has to start, given its predecessor ``prev``."""
+    same_run = S.eq(_attr(S, "run_id", cur), _attr(S, "run_id", prev))
+    is_super = S.truthy(_attr(S, "is_superrun", cur))
+    same_subrun = S.eq(_getitem(S, _attr(S, "first_subrun", cur), "run_id"),
+                       _getitem(S, _attr(S, "last_subrun", prev), "run_id"))
+    defined = S.And(same_run, S.Or(S.Not(is_super), same_subrun))
+    if S.symbolic:
+        value = _z3.If(is_super, _getitem(S, _attr(S, "last_subrun", prev), "end"), _attr(S, "end", prev))
+    else:
+        value = _getitem(S, _attr(S, "last_subrun", prev), "end") if is_super else _attr(S, "end", prev)
+    return defined, value
+
+
+def _pair_ok(S, prev, cur):
+    """Continuity law: within one run (and, for superruns, within one subrun) a chunk that promises
+    continuity starts where its predecessor (resp. the predecessor's last subrun) ended."""
+    defined, value = _expected_start(S, prev, cur)
+    return S.Implies(S.And(defined, S.Not(S.is_none(value)), S.truthy(_attr(S, "promised_continuity", cur))),
+                     S.eq(_attr(S, "start", cur), value))
+
+
+def _plain_pair_ok(S, prev, cur):
+    """Corollary for two consecutive ordinary (non-superrun) chunks of the same run."""
+    same_run = S.eq(_attr(S, "run_id", cur), _attr(S, "run_id", prev))
+    plain = S.Not(S.truthy(_attr(S, "is_superrun", cur)))
+    return S.Implies(S.And(same_run, plain), S.eq(_attr(S, "start", cur), _attr(S, "end", prev)))
+
+
+def _cc_inv(S, a):
+    k, it = a.k_, a.chunk_iter
+    prev = it.at(k - 1)
+    return [
+        ("everything consumed so far has been yielded, in order",
+         S.And(a.out.n == k, S.forall(0, k, lambda j: a.out.at(j) == it.at(j)))),
+        ("all consecutive pairs seen so far are continuous",
+         S.forall(1, k, lambda j: _pair_ok(S, it.at(j - 1), it.at(j)))),
+        ("bookkeeping: nothing remembered before the first chunk",
+         S.Implies(k == 0, S.And(S.is_none(a.last_end), S.is_none(a.last_runid)))),
+        ("bookkeeping: last_end / last_runid / last_subrun describe the previous chunk",
+         S.Implies(k > 0, S.And(S.eq(a.last_end, _attr(S, "end", prev)), S.eq(a.last_runid, _attr(S, "run_id", prev)),
+                                S.eq(a.last_subrun, _attr(S, "last_subrun", prev))))),
+    ]
+
+
+def _cc_exc(S, a, exc):
+    """State at a raise: position k (number of chunks already yielded) breaks the law."""
+    it = a.chunk_iter
+    k = a.out.n
+    return [("the chunks before the offender were yielded in order, the offender itself is not yielded",
+             S.And(k >= 1, k < it.n, S.forall(0, k, lambda j: a.out.at(j) == it.at(j)))),
+            ("the offender really breaks the continuity law", S.Not(_pair_ok(S, it.at(k - 1), it.at(k))))]
+
+
+continuity_check = REG.add(Contract(
+    F, "continuity_check",
+    params=dict(chunk_iter=IterT()),
+    requires=lambda S, a: [
+        ("run ids and chunk ends are never None", S.forall(
+            0, a.chunk_iter.n, lambda j: S.And(S.Not(S.is_none(_attr(S, "run_id", a.chunk_iter.at(j)))),
+                                               S.Not(S.is_none(_attr(S, "end", a.chunk_iter.at(j))))))),
+        ("subrun ids of superrun chunks are never None (enforced by the subruns setter)", S.forall(
+            0, a.chunk_iter.n, lambda j: S.Implies(
+                S.truthy(_attr(S, "is_superrun", a.chunk_iter.at(j))),
+                S.And(S.Not(S.is_none(_getitem(S, _attr(S, "first_subrun", a.chunk_iter.at(j)), "run_id"))),
+                      S.Not(S.is_none(_getitem(S, _attr(S, "last_subrun", a.chunk_iter.at(j)), "run_id"))))))),
+        ("an ordinary chunk always promises continuity (contract of Chunk.promised_continuity, proved below)",
+         S.forall(0, a.chunk_iter.n, lambda j: S.Implies(
+             S.Not(S.truthy(_attr(S, "is_superrun", a.chunk_iter.at(j)))),
+             S.truthy(_attr(S, "promised_continuity", a.chunk_iter.at(j))))))],
+    ensures=lambda S, a, r: [
+        ("every input chunk is yielded exactly once, in order",
+         S.And(a.out.n == a.chunk_iter.n, S.forall(0, a.out.n, lambda j: a.out.at(j) == a.chunk_iter.at(j)))),
+        ("consecutive chunks obey the continuity law (also across subrun borders of a superrun)",
+         S.forall(1, a.chunk_iter.n, lambda j: _pair_ok(S, a.chunk_iter.at(j - 1), a.chunk_iter.at(j)))),
+        ("in particular consecutive ordinary chunks of one run are contiguous",
+         S.forall(1, a.chunk_iter.n, lambda j: _plain_pair_ok(S, a.chunk_iter.at(j - 1), a.chunk_iter.at(j))))],
+    raises={"ValueError": lambda S, a: S.true},
+    exc_ensures=_cc_exc,
+    loops={1: Loop(_cc_inv)},
+    local_sorts={"last_end": "V", "last_runid": "V", "last_subrun": "V"},
+    yields=lambda S, a, v: [("the chunk yielded is the one just received", S.true)],
+    call_names=("continuity_check", "strax.continuity_check"),
+))
+
+
+promised_continuity = REG.add(Contract(
+    F, "Chunk.promised_continuity",
+    params=dict(self=CHUNK),
+    ensures=lambda S, a, r: [("an ordinary (non-superrun) chunk always promises continuity",
+                              S.Implies(S.Not(S.And(S.truthy(a.self._subruns), _z3.Function(
+                                  "startswith", _V, _V, _z3.BoolSort())(a.self.run_id, __import__("pyvc.engine", fromlist=["strv"]).strv("_")))), r))],
+    raises={},
 ))
